@@ -20,6 +20,7 @@ import (
 	"context"
 	"crypto/sha256"
 	"crypto/x509"
+	"encoding/binary"
 	"encoding/hex"
 	"errors"
 	"net/http"
@@ -574,8 +575,16 @@ func (a *jwtAuthenticator) verifyTokenWithKey(
 }
 
 func (a *jwtAuthenticator) calculateCacheKey(ep *endpoint.Endpoint, renderedURL, reference string) string {
+	const int64BytesCount = 8
+
+	// the length of the url separates it from the following value. Without it, different
+	// (url, value) pairs resulting in the same concatenation would share the same cache key
+	urlLen := make([]byte, int64BytesCount)
+	binary.LittleEndian.PutUint64(urlLen, uint64(len(renderedURL)))
+
 	digest := sha256.New()
 	digest.Write(ep.Hash())
+	digest.Write(urlLen)
 	digest.Write(stringx.ToBytes(renderedURL))
 	digest.Write(stringx.ToBytes(reference))
 
